@@ -190,6 +190,14 @@ def check(ctx):
             errs = parse_errors(stderr)
         except Exception as e:  # noqa
             errs = [("?", str(e), None, None)]
+        # goose ends each package's list with "<n> errors": every one of the n must have been read as a structured entry
+        counts = [int(x) for x in re.findall(r"^(\d+) errors$", stderr, re.M)]
+        structured = sum(1 for e in errs if e[0] != "?")
+        if counts and sum(counts) != structured and not found and "could not load package" not in stderr:
+            found = True
+            ctx.violation("counterexample", "a conversion error is not structured: goose counts %d errors, %d of them have a category and a position" % (sum(counts), structured),
+                          dict(inp, proto="cli-error"), expected="every error as `[category]: message … src: file:line:col`",
+                          observed={"stderr": stderr[-1500:]})
         for cat, msg, f, line in errs:
             stats["errors_seen"] += 1
             if cat == "?" and ("could not load package" in msg or "patterns matched no packages" in msg):
